@@ -85,6 +85,17 @@ pub fn run(input: &mut dyn BufRead, out: &mut dyn Write, _args: &[String]) -> R 
         let cap = v["cap"].as_u64().unwrap_or(1000) as usize;
         let with_db = v["matcher"].as_bool().unwrap_or(true);
         let krate = v["crate"].as_str().unwrap().to_string();
+        // an optional signature database given as text replaces the bundled one for this line
+        let db: Arc<huginn_net_db::Database> = match v.get("db").and_then(|d| d.as_str()) {
+            Some(text) => match <huginn_net_db::Database as std::str::FromStr>::from_str(text) {
+                Ok(d) => Arc::new(d),
+                Err(e) => {
+                    writeln!(out, "{}", json!({"id": id, "db_error": e.to_string()})).map_err(|e| e.to_string())?;
+                    continue;
+                }
+            },
+            None => Arc::clone(&db),
+        };
         let path = format!("{dir}/{}-{}.pcap", std::process::id(), id.to_string().replace('"', ""));
         let filt = v.get("filter").filter(|f| !f.is_null());
         if krate == "c20" {
